@@ -25,7 +25,7 @@ import (
 // results, claim payloads, notifications and dispatched messages, and after a
 // restart; derived ids must embed the client id unaltered.
 
-var idPieces = []string{"a", "Z", "0", "/", ":", "<", "&", ">", `"`, "'", "%", "+", " ", "~", ".", "-", "_", "=", "?", "#", "é", "é", "日本", "ß", "İ", "\t", "\x01", "\x7f", "%2F", "%00", "..", "{{.id}}", "\\", "|", "@", ";", ","}
+var idPieces = []string{"a", "Z", "0", "/", ":", "<", "&", ">", `"`, "'", "%", "+", " ", "~", ".", "-", "_", "=", "?", "#", "é", "é", "日本", "ß", "İ", "😀", "𠀋", "\U0010FFFD", "\t", "\x01", "\x7f", "%2F", "%00", "..", "{{.id}}", "\\", "|", "@", ";", ","}
 
 func genId(r *rand.Rand, n int, tag string) string {
 	var sb strings.Builder
@@ -79,7 +79,7 @@ func genMap(r *rand.Rand, routing string) map[string]string {
 	case 2:
 		m = map[string]string{"": "v", "k": ""}
 	case 3:
-		m = map[string]string{"a.b": "c.d", "$.x": "1", "k'\"": "<&>", "日": "é", "k with space": " v ", "UP": "low", "up": "LOW"}
+		m = map[string]string{"a.b": "c.d", "$.x": "1", "k'\"": "<&>", "日": "é", "k with space": " v ", "UP": "low", "up": "LOW", "sup😀": "𝔘𠀋"}
 	default:
 		m = map[string]string{"plain": "value", "n": fmt.Sprint(r.Int63())}
 	}
@@ -531,6 +531,12 @@ func runC20(c *runCtx) {
 			sid := genId(r, 1+r.Intn(5), tag+"s.")
 			sw := &schedule.Schedule{Id: sid, Description: genId(r, 3, "desc "), Cron: "* * * * * *", Tags: genMap(r, ""), PromiseId: "{{.id}}.{{.timestamp}}", PromiseTimeout: 3600_000,
 				PromiseParam: promise.Value{Headers: genMap(r, ""), Data: genBytes(r)}, PromiseTags: genMap(r, "")}
+			if r.Intn(2) == 0 {
+				// the promise timeout is a 64-bit datum like any other ("never" is commonly written as the largest value); such a
+				// schedule is given a cron that does not come due during the run
+				sw.PromiseTimeout = []int64{0, 1, 2147483648, 9007199254740993, 1 << 62, 1<<62 + 1, 9223372036854775806, 9223372036854775807}[r.Intn(8)]
+				sw.Cron = "0 0 1 1 *"
+			}
 			body := map[string]any{"id": sw.Id, "desc": sw.Description, "cron": sw.Cron, "promiseId": sw.PromiseId, "promiseTimeout": sw.PromiseTimeout, "promiseParam": valueJSON(sw.PromiseParam.Headers, sw.PromiseParam.Data)}
 			if sw.Tags != nil {
 				body["tags"] = sw.Tags
@@ -560,9 +566,18 @@ func runC20(c *runCtx) {
 					return g
 				}
 				chk("after create")
+				if hr := srv.Do("GET", "/schedules/"+escPath(sid), nil, nil); hr.Err == nil && hr.Status == 200 {
+					var hv struct {
+						PromiseTimeout int64 `json:"promiseTimeout"`
+					}
+					if json.Unmarshal(hr.Body, &hv) == nil && hv.PromiseTimeout != sw.PromiseTimeout {
+						fail(i, "roundtrip:schedule", "GET /schedules: promiseTimeout read back as %d, supplied %d", hv.PromiseTimeout, sw.PromiseTimeout)
+					}
+					c.rep.Hit("schedule-http-read-checked")
+				}
 				// wait for a firing, then look for the derived promise
 				var last int64
-				for t := 0; t < 40 && last == 0; t++ {
+				for t := 0; t < 40 && last == 0 && sw.Cron == "* * * * * *"; t++ {
 					time.Sleep(100 * time.Millisecond)
 					if res, err := srv.Schedules().ReadSchedule(ctx, &pb.ReadScheduleRequest{Id: sid}); err == nil {
 						last = res.Schedule.LastRunTime
